@@ -216,17 +216,19 @@ def _format_default_for_tagged(
         case Primitive.float64:
             result = "f64(0.0)"
         case Primitive.bool_:
-            result = "false"
+            result = "False"
         case Primitive.error_code:
             result = "ErrorCode.none"
+        case Primitive.timedelta_i32:
+            result = "i32Timedelta.parse(datetime.timedelta(milliseconds=0))"
+        case Primitive.timedelta_i64:
+            result = "i64Timedelta.parse(datetime.timedelta(milliseconds=0))"
         case (
             Primitive.string
             | Primitive.bytes_
             | Primitive.records
             | Primitive.uuid
             | Primitive.datetime_i64
-            | Primitive.timedelta_i32
-            | Primitive.timedelta_i64
         ):
             result = "None"
         case _ if isinstance(
